@@ -80,7 +80,7 @@ pub struct Exec {
     eut_frames: HashMap<u16, u32>,
     eut_noi: HashMap<u16, u32>,
     /// per (channel, handle) running payload offset of the EUT's current outgoing delivery: (message id, offset)
-    out_progress: HashMap<(u16, u32), (i64, usize)>,
+    out_progress: HashMap<(u16, u32), (i64, usize, Option<u32>)>,
     /// messages the application asked to send, per link name, in order (m, len)
     sent_queue: HashMap<String, Vec<(u32, usize)>>,
     link_of_handle: HashMap<(u16, u32), String>,
@@ -234,9 +234,11 @@ impl Exec {
             // identify the payload: it must continue the message at the head of that link's queue
             let key = (ch, t.handle.0);
             let link = self.link_of_handle.get(&key).cloned().unwrap_or_default();
-            let (m, offset) = match self.out_progress.get(&key) {
-                Some(&(m, o)) if m >= 0 => (m, o),
-                _ => { let q = self.sent_queue.entry(link.clone()).or_default(); if q.is_empty() { (-1, 0) } else { (q.remove(0).0 as i64, 0) } }
+            // a continuation frame continues the delivery in progress; a first frame names its message itself (message-id)
+            // (a frame that carries a different delivery-id than the delivery in progress starts a new delivery)
+            let (m, offset, did) = match self.out_progress.get(&key) {
+                Some(&(m, o, d)) if m >= 0 && (t.delivery_id.is_none() || t.delivery_id == d) => (m, o, d),
+                _ => (message_id_of(payload).map(|x| x as i64).unwrap_or(-1), 0, t.delivery_id),
             };
             let (ok, mlen) = if m >= 0 {
                 let shape = self.msg_shapes.get(&(m as u32)).cloned().unwrap_or((0, "data".into()));
@@ -245,7 +247,7 @@ impl Exec {
             } else { (false, 0) };
             f["link"] = json!(link);
             ev["pl"] = json!({"m": m, "off": offset, "len": payload.len(), "ok": ok, "total": mlen});
-            if t.more { self.out_progress.insert(key, (m, offset + payload.len())); } else { self.out_progress.remove(&key); }
+            if t.more { self.out_progress.insert(key, (m, offset + payload.len(), did)); } else { self.out_progress.remove(&key); }
         }
         ev["f"] = f;
         self.emit(ev);
@@ -280,13 +282,15 @@ impl Exec {
     }
     pub async fn settle(&mut self) {
         PROGRESS.fetch_add(1, Ordering::Relaxed);
-        tokio::time::sleep(Duration::from_micros(1)).await;
-        self.drain().await;
-        self.collect_calls().await;
-        // a call that finished may have released frames (e.g. handle drop): observe once more
-        tokio::time::sleep(Duration::from_micros(1)).await;
-        self.drain().await;
-        self.collect_calls().await;
+        // quiescence: run until idle, take what the endpoint wrote, and repeat while that released more
+        // (a finished call may drop a handle; draining a small transport pipe unblocks a writer)
+        for round in 0..200 {
+            tokio::time::sleep(Duration::from_micros(1)).await;
+            let before = (self.log.len(), self.calls.len());
+            self.drain().await;
+            self.collect_calls().await;
+            if round >= 1 && before == (self.log.len(), self.calls.len()) { break; }
+        }
         let alive = tokio::runtime::Handle::current().metrics().num_alive_tasks();
         let pending: Vec<u64> = self.calls.iter().map(|c| c.id).collect();
         // resource monitors since the previous quiescence point
@@ -611,7 +615,10 @@ impl Exec {
                 if found { self.emit(json!({"ev": "ApiDrop", "scope": h})); } else { self.skip(e, "no such handle"); }
             }
             "ACancel" => {
-                let id = e["call"].as_u64().unwrap_or(0);
+                let id = match e.get("l").and_then(|x| x.as_str()) {
+                    Some(l) => { let sc = format!("l:{l}"); self.calls.iter().rev().find(|c| c.scope == sc && c.cancel.is_some()).map(|c| c.id).unwrap_or(0) }
+                    None => e["call"].as_u64().unwrap_or(0),
+                };
                 match self.calls.iter_mut().find(|c| c.id == id).and_then(|c| c.cancel.take()) {
                     Some(tx) => { let _ = tx.send(()); self.emit(json!({"ev": "ApiCancel", "call": id})); }
                     None => self.skip(e, "call not pending / not cancellable"),
@@ -648,6 +655,7 @@ impl Exec {
             }
             "HookArm" => { let n = e["name"].as_str().unwrap_or("").to_string(); let g = fe2o3_amqp::verif::arm(&n); self.gates.insert(n.clone(), g); self.emit(json!({"ev": "Hook", "op": "arm", "name": n, "hits": 0})); }
             "HookRelease" => { let n = e["name"].as_str().unwrap_or("").to_string(); let hits = self.gates.get(&n).map(|g| { let h = g.hits.load(Ordering::SeqCst); g.release(); h }).unwrap_or(0); fe2o3_amqp::verif::disarm(&n); self.gates.remove(&n); self.emit(json!({"ev": "Hook", "op": "release", "name": n, "hits": hits})); }
+            "Yield" => { for _ in 0..e.get("n").and_then(|x| x.as_u64()).unwrap_or(20) { tokio::task::yield_now().await; } self.emit(json!({"ev": "Yield"})); }
             "Mark" => { self.emit(json!({"ev": "Mark", "what": e["what"]})); }
             "Settle" => {}
             other => { self.emit(json!({"ev": "Skip", "what": other, "why": "unknown event"})); }
